@@ -340,3 +340,61 @@ def bind_args(fi: FunctionInfo, call: ast.Call, skip_self: bool = True) -> Dict[
         if kw.arg is not None:
             out[kw.arg] = kw.value
     return out
+
+
+# ---------------------------------------------------------------------------
+# in-place mutation of module-level containers, directly or through a local alias
+# ---------------------------------------------------------------------------
+
+MUTATORS = ("append", "extend", "update", "pop", "clear", "insert", "setdefault", "add", "remove", "sort", "reverse", "discard", "popitem")
+
+
+def module_container_mutations(prog: "Program", fi: "FunctionInfo"):
+    """-> [(node, local name, module-level name, how)]: statements of fi that mutate a module-level list / dict / set
+    in place, either under its own name or through a local bound to it by a plain copy  L = G  (may-alias; an
+    intervening rebinding of L in the same block or at function level ends the alias)"""
+    m = prog.modules[fi.module]
+    mutable_globals = {k for k, v in m.constants.items() if isinstance(v, (ast.List, ast.Dict, ast.Set, ast.ListComp, ast.DictComp, ast.SetComp))
+                       or (isinstance(v, ast.Call) and attr_chain(v.func) in ("list", "dict", "set", "defaultdict", "collections.defaultdict", "OrderedDict"))}
+    if not mutable_globals:
+        return []
+    fn = fi.node
+    stores = [x for x in walk_no_nested(fn) if isinstance(x, ast.Name) and isinstance(x.ctx, ast.Store)]
+    local_names = {x.id for x in stores} | set(fi.params())
+    alias = {}  # local -> [(lineno, global)]
+    rebind = {}  # local -> [lineno] of non-alias bindings
+    for s_ in walk_no_nested(fn):
+        if isinstance(s_, ast.Assign) and len(s_.targets) == 1 and isinstance(s_.targets[0], ast.Name):
+            t = s_.targets[0].id
+            if isinstance(s_.value, ast.Name) and s_.value.id in mutable_globals and s_.value.id not in local_names:
+                alias.setdefault(t, []).append((s_.lineno, s_.value.id))
+            else:
+                rebind.setdefault(t, []).append(s_.lineno)
+    out = []
+
+    def target_of(name: str, line: int):
+        if name in mutable_globals and name not in local_names:
+            return name
+        best = None
+        for a_line, g in alias.get(name, []):
+            if a_line < line and not any(a_line < r < line for r in rebind.get(name, [])):
+                best = g
+        return best
+
+    for n in walk_no_nested(fn):
+        if isinstance(n, ast.Call) and isinstance(n.func, ast.Attribute) and isinstance(n.func.value, ast.Name) and n.func.attr in MUTATORS:
+            g = target_of(n.func.value.id, n.lineno)
+            if g:
+                out.append((n, n.func.value.id, g, f".{n.func.attr}()"))
+        if isinstance(n, (ast.Assign, ast.AugAssign, ast.Delete)):
+            tg = n.targets if isinstance(n, (ast.Assign, ast.Delete)) else [n.target]
+            for t in tg:
+                if isinstance(t, ast.Subscript) and isinstance(t.value, ast.Name):
+                    g = target_of(t.value.id, n.lineno)
+                    if g:
+                        out.append((n, t.value.id, g, "item assignment" if not isinstance(n, ast.Delete) else "del item"))
+                if isinstance(n, ast.AugAssign) and isinstance(t, ast.Name):
+                    g = target_of(t.id, n.lineno)
+                    if g and (t.id != g or any(isinstance(x, ast.Global) and g in x.names for x in ast.walk(fn))):
+                        out.append((n, t.id, g, "augmented assignment"))
+    return out
